@@ -629,6 +629,8 @@ class _Simu(_IObserver, _params.Updatable, ABC):
         self.__NindexMesh: int = -1
         """Current mesh index in self.__listMesh"""
         self.__listMesh: list[Union[str, Mesh]] = []
+        self.__folderMeshes: str = ""
+        """Folder of the last `Save`: the meshes it wrote are kept in self.__listMesh as paths relative to it."""
         self.mesh = mesh
 
         self.rho = 1.0
@@ -930,7 +932,7 @@ class _Simu(_IObserver, _params.Updatable, ABC):
         list_mesh: list[Mesh] = []
         for mesh in self.__listMesh:
             if isinstance(mesh, str):
-                mesh = Load_Mesh(Folder.Join(self.folder, mesh))
+                mesh = self.__Load_mesh(mesh)
             list_mesh.append(mesh._Gather())
 
         if MPI_RANK == 0:
@@ -950,6 +952,16 @@ class _Simu(_IObserver, _params.Updatable, ABC):
         """simulation's dimension"""
         return self.__dim
 
+    def __Load_mesh(self, mesh: str) -> Mesh:
+        """Loads a mesh of the history written by `Save`.\n
+        Its path is relative to the folder of that save, whatever self.folder has become since."""
+        try:
+            folder = self.__folderMeshes
+        except AttributeError:
+            # simulation saved before this attribute existed
+            folder = self.folder
+        return Load_Mesh(Folder.Join(folder, mesh))
+
     def __Update_mesh(self, index: int) -> None:
         """Updates the mesh for the specified iteration.
 
@@ -962,7 +974,7 @@ class _Simu(_IObserver, _params.Updatable, ABC):
         mesh = self.__listMesh[index]
 
         if isinstance(mesh, str):
-            mesh = Load_Mesh(Folder.Join(self.folder, mesh))
+            mesh = self.__Load_mesh(mesh)
 
         self.__mesh = mesh
 
@@ -3207,10 +3219,11 @@ class _Simu(_IObserver, _params.Updatable, ABC):
         list_mesh = []
         for i, mesh in enumerate(self.__listMesh):
             if isinstance(mesh, str):
-                mesh = Load_Mesh(Folder.Join(folder, mesh))
+                mesh = self.__Load_mesh(mesh)
             path = mesh.Save(folder_meshes, f"mesh{i}")
             list_mesh.append(Folder.os.path.relpath(path, folder))
         self.__listMesh = list_mesh
+        self.__folderMeshes = folder
 
         # Save simulation
         with open(path_simu, "wb") as file:
